@@ -16,6 +16,14 @@ import (
 	"github.com/jimlambrt/gldap"
 )
 
+type awkwardErr struct{ msg string }
+
+func (e *awkwardErr) Error() string { return e.msg } // panics on a nil receiver
+
+type awkwardStringer struct{ s string }
+
+func (s *awkwardStringer) String() string { return s.s } // panics on a nil receiver
+
 // ---- stream "c07": faults amid bystander traffic (runs in a worker subprocess: a fault that
 // kills the process is observed by the parent) ------------------------------------------------------
 
@@ -72,6 +80,18 @@ func (c07Stream) Impl(c Case) string {
 			isVictim = r.VerifMessage().GetID() == 666
 		}
 		if isVictim && strings.HasPrefix(fault, "panic-") {
+			// the value a handler panics with is the handler's business: a string, an error, a typed nil pointer whose
+			// own Error / String method would panic
+			switch r.VerifMessage().GetID() % 4 {
+			case 1:
+				var e *awkwardErr
+				panic(error(e))
+			case 2:
+				var st *awkwardStringer
+				panic(fmt.Stringer(st))
+			case 3:
+				panic(fmt.Errorf("handler panic injected by the harness: %w", errEOF))
+			}
 			panic("handler panic injected by the harness")
 		}
 		answer(w, r)
@@ -191,7 +211,7 @@ func (c07Stream) Impl(c Case) string {
 			nd, _ := r.Node()
 			frame = nd.Ser()
 		default:
-			r := Req{Kind: op, ID: 666, DN: victimDN, Pass: "p", Scope: 2, Filter: "(cn=x)"}
+			r := Req{Kind: op, ID: int64(664 + atoi(p["seed"])%4), DN: victimDN, Pass: "p", Scope: 2, Filter: "(cn=x)"}
 			nd, _ := r.Node()
 			frame = nd.Ser()
 		}
@@ -213,6 +233,17 @@ func (c07Stream) Impl(c Case) string {
 			buf = append(buf, nd.Ser()...)
 		}
 		_ = victim.send(buf)
+		// while that client's handlers are stuck, the application registers one more route on the running mux
+		time.Sleep(60 * time.Millisecond)
+		regDone := make(chan struct{})
+		go func() {
+			_ = mux.ExtendedOperation(func(w *gldap.ResponseWriter, r *gldap.Request) { answer(w, r) }, gldap.ExtendedOperationName("1.2.3.4.5.6.7"))
+			close(regDone)
+		}()
+		select {
+		case <-regDone:
+		case <-time.After(50 * time.Millisecond):
+		}
 	case fault == "notreading-default":
 		var buf []byte
 		for j := 0; j < 3; j++ {
